@@ -383,10 +383,21 @@ def s3_s4(ctx):
         r4.inst('state:' + k.split('::')[-1], {'thread_local': k.split('::')[-1], 'accessed_from_memoised_parsers_via': [short(x) for x in acc][:6],
                                                'in_memo_key': k in covered})
         if acc and k not in covered:
-            r4.fail('%s:unkeyed-state:%s' % (PARSER, k.split('::')[-1]), m.tl_keys[k][0]['file'] + ':' + str(m.tl_keys[k][0]['line']),
-                    'memoised parsers depend on thread-local %s (through %s) but the memo key (HasExtraState) does not include it: a memo '
-                    'hit can replay a result computed under another value' % (k.split('::')[-1], ', '.join(short(x) for x in acc)),
-                    {'key': k, 'via': acc})
+            # one finding per OBSERVER: an accessor whose owner function returns a value (the state flows into a result); accessors
+            # that return () only change the state (that side is `effect-in-memoised`)
+            observers = {}
+            for x in acc:
+                own = short(m.owner(x)).split('::')[-1]
+                fi = g.fns.get(own)
+                rets = (fi.item['sig'].get('rets') or '').replace(' ', '') if fi is not None else '?'
+                if rets not in ('', '()', 'None'):
+                    observers.setdefault(own, rets)
+            r4.inst('observers:' + k.split('::')[-1], {'thread_local': k.split('::')[-1], 'value_returning_accessors': sorted(observers)})
+            for own, rets in sorted(observers.items()):
+                r4.fail('%s:unkeyed-state:%s:observed-by:%s' % (PARSER, k.split('::')[-1], own), m.tl_keys[k][0]['file'] + ':' + str(m.tl_keys[k][0]['line']),
+                        'memoised parsers depend on thread-local %s through %s() -> %s but the memo key (HasExtraState) does not include it: a memo '
+                        'hit can replay a result computed under another value, and a result can depend on whether an earlier visit was a memo hit'
+                        % (k.split('::')[-1], own, rets), {'key': k, 'via': acc, 'observer': own})
     # (b) effect freedom: by-design effect sites inside memoised parsers
     for own_short, why in exempt_owner.items():
         fam = [nme for nme in bodies if m.owner(nme).split('::')[-1] == own_short]
